@@ -55,6 +55,9 @@ def install_jit_seam():
 
 
 # ----------------------------------------------------------------------------- data from ids
+NEIGHBOUR_SALT = 0  # set to 1 in the pristine reference process: what lies next to an argument in memory is not an argument
+
+
 def arr_from(spec) -> np.ndarray:
     g = np.random.default_rng(50_000 + spec["id"])
     shape = tuple(spec["shape"]) + ((spec["chan"],) if spec.get("chan") else ())
@@ -62,7 +65,14 @@ def arr_from(spec) -> np.ndarray:
     dt = spec.get("dtype", "float64")
     if dt == "uint8":
         return (a * 255).astype(np.uint8)
-    return a.astype(dt)
+    a = a.astype(dt)
+    if spec.get("slab") is not None:
+        # the argument is the middle frame of a caller-owned stack; the neighbouring frames hold other data in the
+        # history than in the reference process (a routine reading outside its argument shows up as a difference)
+        big = np.random.default_rng(55_000 + 2 * spec["slab"] + NEIGHBOUR_SALT).uniform(0.0, 1.0, size=(3,) + a.shape).astype(dt)
+        big[1] = a
+        return big[1]
+    return a
 
 
 def img_from(spec):
@@ -357,6 +367,8 @@ def child_reference(case, op, obj_spec, params, seed_rng):
     given the parameters set for it."""
     install_jit_seam()
     install_clock()
+    global NEIGHBOUR_SALT
+    NEIGHBOUR_SALT = 1
     objs = {}
     # The reference object is CONSTRUCTED with the parameters that were set for the history object (not
     # constructed with the original arguments and then updated), so that a parameter update that fails to
@@ -463,6 +475,8 @@ class C16Engine(Engine):
         spec["dtype"] = dt
         if r.random() < 0.3:
             spec["form"] = "image"
+        if r.random() < 0.2:
+            spec["slab"] = r.randint(0, 999)  # the argument is a frame of a larger caller-owned array (see arr_from)
         return spec
 
     def _gen_objects(self, r, cname, alphabet):
@@ -596,12 +610,20 @@ class C16Engine(Engine):
                 op["start"] = R * r.randint(1, 2)  # the caller's iteration counter starts at a restart boundary
             return op
         if k == "TVD":
-            if r.random() < 0.5:
+            def tvd_img():
                 im = self._img(r, allow_chan=False, float_only=True)
+                if r.random() < 0.2:
+                    im["shape"][r.randint(0, 1)] = 1  # a single-voxel axis (a column or row image)
+                if r.random() < 0.4:
+                    im["slab"] = r.randint(0, 999)
+                    im.pop("form", None)
+                return im
+            if r.random() < 0.5:
+                im = tvd_img()
                 if objs[f"{cname}.t0"].get("x0"):
                     im["shape"] = list(objs[f"{cname}.t0"]["x0"]["shape"])  # a warm start fixes the image shape
                 return {"op": "TVD", "obj": f"{cname}.t0", "img": im}
-            return {"op": "TVD", "img": self._img(r, allow_chan=False, float_only=True),
+            return {"op": "TVD", "img": tvd_img(),
                     "method": r.choice(["chambolle", "anisotropic bregman", "isotropic bregman", "heterogeneous bregman"]),
                     "weight": r.choice([0.05, 0.1, 0.5]), "iters": r.randint(1, 4), "eps": 1e-6,
                     "omega": r.choice([0.5, 1.0]), "regularization": r.choice([None, None, None, None, None, 0.5, 2.0])}
